@@ -20,11 +20,11 @@ Notation "'let+' x ':=' r 'in' k" := (rbind r (fun x => k))
 
 (* ReadNoStd::read_exact on both backends: ReadError when the input is too short *)
 Definition read_exact (n : N) : R (list byte) := fun i p =>
-  if n <=? nlen i then Ok (ntake n i, ndrop n i, p + n) else Err ReadError.
+  if has_len n i then Ok (ntake n i, ndrop n i, p + n) else Err ReadError.
 
 (* backend.data[..n] followed by backend.skip(n) on SliceWithPos: a bounds-check panic when short *)
 Definition take_slice (n : N) : R (list byte) := fun i p =>
-  if n <=? nlen i then Ok (ntake n i, ndrop n i, p + n) else Panic PBounds.
+  if has_len n i then Ok (ntake n i, ndrop n i, p + n) else Panic PBounds.
 
 Definition rpos : R N := fun i p => Ok (p, i, p).
 
@@ -43,7 +43,7 @@ Definition ralign (rk : rkind_t) (u : N) : R unit := fun i p =>
             | Panic w => Panic w
             end
   | Some base =>
-      if pad <=? nlen i then
+      if has_len pad i then
         if (base + (p + pad)) mod u =? 0 then Ok (tt, ndrop pad i, p + pad) else Err AlignmentError
       else Panic PBounds
   end.
